@@ -10,6 +10,7 @@ import (
 	"math"
 	"net/http"
 	"path"
+	"reflect"
 	"strconv"
 	"sync"
 	"time"
@@ -311,6 +312,13 @@ func handleMethod(svr interface{}, serviceName string, desc *grpc.MethodDesc, un
 				w.Header().Add(grpcDetailsHeader, str)
 			}
 			errHandler(r.Context(), st, w)
+			return
+		}
+
+		if rv := reflect.ValueOf(resp); resp == nil || (rv.Kind() == reflect.Ptr && rv.IsNil()) {
+			// handler returned neither a response nor an error: there is
+			// nothing to encode, whatever the codec makes of a nil message
+			writeError(w, http.StatusInternalServerError)
 			return
 		}
 
